@@ -39,7 +39,8 @@ VARIABLES
     running,   \* wallet attached to the backend
     wchain,    \* wallet: remembered block ids above the birthday block
     wconf,     \* wallet: [Txs -> -1..MaxLen]: -1 unknown, 0 unconfirmed, k confirmed at position k
-    lastDisc,  \* the block most recently disconnected (for duplicate notifications)
+    lastDisc,  \* <<base, ids>>: the blocks removed by the latest disconnection, ids[j] was at position base + j
+               \* (for repeated notifications); <<0, <<>>>> = none
     hist
 
 bvars == <<chain, nextId, conf, sent>>
@@ -105,7 +106,7 @@ Init ==
     /\ conf = [t \in Txs |-> 0] /\ sent = {}
     /\ running = TRUE
     /\ wchain = <<1>> /\ wconf = [t \in Txs |-> -1]
-    /\ lastDisc = <<0, 0>>
+    /\ lastDisc = <<0, <<>>>>
     /\ hist = <<>>
 
 (* somebody broadcasts a payment to the wallet *)
@@ -137,8 +138,13 @@ RECURSIVE Connects(_, _, _, _, _)
 Connects(w, pos, id, n, S) ==
     IF n = 0 THEN w ELSE Connects(OnConnect(w, pos, id, S), pos + 1, id + 1, n - 1, {})
 
-Reorg(d, n, S) ==
+(* dup > 0: after the d disconnect notifications the backend repeats the one  *)
+(* for the dup-th removed block counted from the former tip (1 = the former   *)
+(* tip, d = the lowest removed block) before the new blocks arrive; the       *)
+(* repeated notification is stale at that moment and must change nothing.     *)
+Reorg(d, n, S, dup) ==
     /\ d \in 1..MaxDepth /\ d <= Tip - MinKeep /\ n \in {d, d + 1}
+    /\ dup \in {0, 1, d}
     /\ Tip - d + n <= MaxLen /\ nextId + n - 1 <= MaxBlocks
     /\ LET base == Tip - d
            back == {t \in Txs : conf[t] > base}
@@ -147,12 +153,14 @@ Reorg(d, n, S) ==
            /\ chain' = SubSeq(chain, 1, base) \o [i \in 1..n |-> nextId + i - 1]
            /\ nextId' = nextId + n
            /\ conf' = [t \in Txs |-> IF t \in S THEN base + 1 ELSE IF t \in back THEN 0 ELSE conf[t]]
-           /\ lastDisc' = <<base + 1, chain[base + 1]>>
+           /\ lastDisc' = <<base, SubSeq(chain, base + 1, Tip)>>
            /\ IF running
-              THEN SetW(Connects(Disconnects(W, chain, d), base + 1, nextId, n, S))
+              THEN LET w1 == Disconnects(W, chain, d)
+                       w2 == IF dup = 0 THEN w1 ELSE OnDisconnect(w1, Tip - dup + 1, chain[Tip - dup + 1])
+                   IN  SetW(Connects(w2, base + 1, nextId, n, S))
               ELSE UNCHANGED <<wchain, wconf>>
     /\ UNCHANGED <<sent, running>>
-    /\ Step("Reorg", [d |-> d, n |-> n, txs |-> S])
+    /\ Step("Reorg", [d |-> d, n |-> n, txs |-> S, dup |-> dup])
 
 (* the top d blocks are disconnected and then the very same blocks are        *)
 (* connected again (invalidateblock / reconsiderblock, a competing branch     *)
@@ -164,19 +172,35 @@ ConnectSame(w, pos) ==
 
 Flap(d) ==
     /\ d \in 1..MaxDepth /\ d <= Tip - MinKeep
-    /\ lastDisc' = <<0, 0>>       \* those blocks are on the chain again: a repeat would not be stale
+    /\ lastDisc' = <<0, <<>>>>   \* those blocks are on the chain again: a repeat would not be stale
     /\ IF running
        THEN SetW(ConnectSame(Disconnects(W, chain, d), Tip - d + 1))
        ELSE UNCHANGED <<wchain, wconf>>
     /\ UNCHANGED <<bvars, running>>
     /\ Step("Flap", [d |-> d])
 
-(* the backend repeats its last disconnect notification *)
-DupDisconnect ==
-    /\ running /\ lastDisc[1] # 0
-    /\ SetW(OnDisconnect(W, lastDisc[1], lastDisc[2]))
+(* the best chain loses its top d blocks and nothing replaces them yet        *)
+(* (invalidateblock, or the first half of a reorganisation whose new branch   *)
+(* is still being downloaded): only disconnect notifications                  *)
+Shrink(d) ==
+    /\ running       \* while the wallet is stopped only evolutions that do not shorten the best chain are considered
+    /\ d \in 1..MaxDepth /\ d <= Tip - MinKeep
+    /\ LET base == Tip - d
+           back == {t \in Txs : conf[t] > base}
+       IN  /\ chain' = SubSeq(chain, 1, base)
+           /\ conf' = [t \in Txs |-> IF t \in back THEN 0 ELSE conf[t]]
+           /\ lastDisc' = <<base, SubSeq(chain, base + 1, Tip)>>
+           /\ SetW(Disconnects(W, chain, d))
+    /\ UNCHANGED <<nextId, sent, running>>
+    /\ Step("Shrink", [d |-> d])
+
+(* the backend repeats one of its latest disconnect notifications (any of the *)
+(* blocks it removed last, not only the lowest)                               *)
+DupDisconnect(j) ==
+    /\ running /\ j \in 1..Len(lastDisc[2])
+    /\ SetW(OnDisconnect(W, lastDisc[1] + j, lastDisc[2][j]))
     /\ UNCHANGED <<bvars, running, lastDisc>>
-    /\ Step("DupDisconnect", [pos |-> lastDisc[1]])
+    /\ Step("DupDisconnect", [pos |-> lastDisc[1] + j])
 
 (* a disconnect notification for a block the wallet never had at a height   *)
 (* it has (a stale branch) *)
@@ -214,7 +238,7 @@ StartDuringReorg(d, n, S) ==
            /\ chain' = SubSeq(chain, 1, base) \o [i \in 1..n |-> nextId + i - 1]
            /\ nextId' = nextId + n
            /\ conf' = [t \in Txs |-> IF t \in S THEN base + 1 ELSE IF t \in back THEN 0 ELSE conf[t]]
-           /\ lastDisc' = <<base + 1, chain[base + 1]>>
+           /\ lastDisc' = <<base, SubSeq(chain, base + 1, Tip)>>
            /\ SetW(Connects(Disconnects(w0, chain, d), base + 1, nextId, n, S))
     /\ UNCHANGED sent
     /\ Step("StartDuringReorg", [d |-> d, n |-> n, txs |-> S])
@@ -223,9 +247,10 @@ Next ==
     \/ On("StartDuringReorg") /\ \E d \in 1..MaxDepth, n \in 1..(MaxDepth+1), S \in SUBSET Txs : StartDuringReorg(d, n, S)
     \/ \E t \in Txs : Receive(t)
     \/ \E S \in SUBSET Txs : Extend(S)
-    \/ \E d \in 1..MaxDepth, n \in 1..(MaxDepth+1), S \in SUBSET Txs : Reorg(d, n, S)
+    \/ \E d \in 1..MaxDepth, n \in 1..(MaxDepth+1), S \in SUBSET Txs, dup \in 0..MaxDepth : Reorg(d, n, S, dup)
     \/ \E d \in 1..MaxDepth : Flap(d)
-    \/ DupDisconnect
+    \/ \E j \in 1..MaxDepth : DupDisconnect(j)
+    \/ On("Shrink") /\ \E d \in 1..MaxDepth : Shrink(d)
     \/ \E p \in 1..MaxLen : StaleDisconnect(p)
     \/ Stop \/ Start
 
